@@ -136,3 +136,27 @@ Theorem C06_path_reserved_delimiters_refuted :
     /\ obind (pct_decode q) (dec_value FMatrixPrim name) = Some (coerce v).
 Proof. exact path_reserved_delimiters_refuted. Qed.
 Print Assumptions C06_path_reserved_delimiters_refuted.
+
+(* ---- query post-processing of RequestsTransport.serialize_case: only the entries equal to the empty object change *)
+Theorem C06_empty_object_rule_is_pointwise : forall q, requests_params q = map blank_empty_obj q.
+Proof. exact requests_params_pointwise. Qed.
+Print Assumptions C06_empty_object_rule_is_pointwise.
+
+Theorem C06_query_parameter_independent_of_neighbours : forall q k,
+  d_get k (requests_params q) = omap (fun v => if is_empty_obj v then sval [] else v) (d_get k q).
+Proof. exact requests_params_lookup. Qed.
+Print Assumptions C06_query_parameter_independent_of_neighbours.
+
+(* ---- coverage phase: Template._serialize keeps the quoted values in the shared template *)
+Theorem C06_coverage_requote_partial : forall name s n,
+  quote_stable s = true -> template_nth [] n [(name, sval s)] = Some [(name, sval s)].
+Proof. exact coverage_stable. Qed.
+Print Assumptions C06_coverage_requote_partial.
+
+Theorem C06_coverage_requote_refuted :
+  exists name s out1 out2 q2,
+    template_nth [] 0 [(name, sval s)] = Some out1 /\ obind (d_get name out1) as_str = quote_value s
+    /\ template_nth [] 1 [(name, sval s)] = Some out2 /\ d_get name out2 = Some (sval q2)
+    /\ pct_decode_form q2 <> Some s /\ pct_decode q2 <> Some s.
+Proof. exact coverage_requote_refuted. Qed.
+Print Assumptions C06_coverage_requote_refuted.
